@@ -1,29 +1,32 @@
 import GdcVerif.Lemmas.RleTotal
 import GdcVerif.Lemmas.ParsersTotal
+import GdcVerif.Lemmas.J2kAlloc
+import GdcVerif.Lemmas.JpegAlloc
 /-!
   C09 — decoding ends within time/memory bounded by input length and declared image size.
 
   Wall-clock and heap numbers are runtime facts (searched by the harness in child processes with a
   watchdog, RLIMIT_AS and allocation accounting).  The logic behind them is proved on the models:
-  * every modelled parser loop has a termination MEASURE (unread bytes) that strictly decreases —
-    the models are defined by well-founded recursion on that measure (no fuel), and the progress
-    lemmas the recursion rests on are stated here;
-  * the models return the list of allocation sizes; theorems bound them.
+  * TIME of the header walks: every modelled decoder loop is `PC.run step`, a well-founded
+    recursion on the number of unread bytes (no fuel); a continuing turn leaves strictly fewer
+    unread bytes (`*_lt`), so the number of turns is at most len(input) + 1 (`turns_le`);
+  * MEMORY: the models carry the list of allocation sizes; RLE: every allocation ≤ 15·S + 1;
+    JPEG 2000 parser: the SUM of all allocations ≤ 2·len(input) + 196605.
 -/
 
 namespace JM
+open PC
 
-/-- (1) `Reader.ReadMarker`: the fill-byte loop consumes at least one byte per 0xFF and the call as
-    a whole at least two bytes -/
+/-- (1) `Reader.ReadMarker`: the fill-byte loop and the call as a whole consume ≥ 2 bytes -/
 theorem c09_readMarker_progress (bs : Bytes) (m : Nat) (rest : Bytes) (h : readMarker bs = some (m, rest)) :
     rest.length + 2 ≤ bs.length := readMarker_progress h
 
 /-- (2) `Reader.ReadSegment` consumes at least the two length bytes (length = 2 included; lengths 0
-    and 1 are errors), so the marker loops of all JPEG-family decoders consume ≥ 2 bytes per turn -/
+    and 1 are errors), and its payload buffer is cut from the input -/
 theorem c09_readSegment_progress (bs pl rest : Bytes) (h : readSegment bs = some (pl, rest)) :
-    rest.length + 2 ≤ bs.length := readSegment_progress h
+    rest.length + 2 ≤ bs.length ∧ pl.length + 2 ≤ bs.length := readSegment_progress h
 
-/-- (3) the payload buffer ReadSegment allocates is below 64 KiB whatever the input -/
+/-- (3) the payload buffer ReadSegment allocates (before it knows the data is there) is below 64 KiB -/
 theorem c09_readSegment_alloc (bs : Bytes) (hb : ∀ b ∈ bs, b < 256) : readSegmentAlloc bs ≤ 65533 := by
   match bs with
   | [] => simp [readSegmentAlloc]
@@ -35,61 +38,81 @@ theorem c09_readSegment_alloc (bs : Bytes) (hb : ∀ b ∈ bs, b < 256) : readSe
     simp only
     split <;> omega
 
+/-- (4) the marker loops of the four JPEG-family decoders and the two JPEG-LS decoders: a turn that
+    continues leaves strictly fewer unread bytes -/
+theorem c09_sv1_turn (st st' : Sv1) (bs r : Bytes) (h : sv1Step st bs = .more st' r) : r.length < bs.length := sv1Step_lt h
+theorem c09_jll_turn (st st' : Jll) (bs r : Bytes) (h : jllStep st bs = .more st' r) : r.length < bs.length := jllStep_lt h
+theorem c09_baseline_turn (st st' : Bl) (bs r : Bytes) (h : blStep st bs = .more st' r) : r.length < bs.length := blStep_lt h
+theorem c09_jls_turn (st st' : JlsH.St) (bs r : Bytes) (h : JlsH.step st bs = .more st' r) : r.length < bs.length := JlsH.step_lt h
+theorem c09_jlsnear_turn (st st' : JlsH.St) (bs r : Bytes) (h : JlsH.nstep st bs = .more st' r) : r.length < bs.length := JlsH.nstep_lt h
+
+/-- (5) … hence at most len + 1 turns (stated for the generic runner; instances below) -/
+theorem c09_sv1_turns (st : Sv1) (bs : Bytes) : turns sv1Step sv1Step_lt st bs ≤ bs.length + 1 := turns_le _ _ st bs
+theorem c09_baseline_turns (st : Bl) (bs : Bytes) : turns blStep blStep_lt st bs ≤ bs.length + 1 := turns_le _ _ st bs
+
 example : readMarker [0xFF, 0xFF, 0xFF, 0xC3, 7] = some (0xFFC3, [7]) := by decide
+
+/-- (5') MEMORY, jpeg/lossless: every allocation up to the first Huffman symbol (segment payloads,
+    Huffman values, scan byte buffer, sample planes, output buffer) is at most len(input), or 65533
+    (a ReadSegment that fails after allocating), or 8·w·h for the frame header in force at the scan —
+    i.e. ≤ c₁·len + 8·S -/
+theorem c09_jll_allocs (bs : Bytes) (hb : IsBytes bs) :
+    ∀ a ∈ (jllDecode bs).1.allocs, a ≤ bs.length ∨ a ≤ 65533 ∨
+      a ≤ 8 * ((jllDecode bs).1.width * (jllDecode bs).1.height) := jllDecode_allocs bs hb
+
+/-- (5'') MEMORY, JPEG-LS lossless: likewise, with the sample buffer 8·w·h·comps -/
+theorem c09_jls_allocs (bs : Bytes) (hb : IsBytes bs) :
+    ∀ a ∈ (JlsH.header bs).1.allocs, a ≤ bs.length ∨ a ≤ 65533 ∨
+      a ≤ 8 * ((JlsH.header bs).1.width * (JlsH.header bs).1.height * (JlsH.header bs).1.comps) :=
+  JlsH.header_allocs bs hb
+
+example : IsBytes [0xff, 0xd8, 0xff, 0xc3] := by unfold IsBytes; decide
 
 end JM
 
 namespace J2kH
+open PC
 
-/-- (4) one "unknown marker" turn of consumeMainHeader (2 marker bytes, 2 length bytes,
-    `offset += length − 2`) makes net progress ≥ 2 even for the length fields 0 and 1 that move the
-    offset backwards -/
-theorem c09_skip_progress (a b : Nat) (rest r : Bytes) (h : skipSegment rest = some r) :
-    r.length + 2 ≤ (a :: b :: rest).length := skip_iteration_progress a b rest r h
+/-- (6) one turn of consumeMainHeader / parseTileHeader / the tile loop leaves strictly fewer unread
+    bytes — also for skipSegment with the length fields 0 and 1, which move the Go offset BACK into
+    the length field, and for tile data delimited by Psot or by the marker scan -/
+theorem c09_j2k_turn (st st' : St) (bs r : Bytes) (h : step st bs = .more st' r) : r.length < bs.length := step_lt h
 
-/-- (4') the backwards step is real: length field 0 gives the two length bytes back -/
-theorem c09_skip_backwards : skipSegment [0, 0, 9, 9] = some [0, 0, 9, 9] := by decide
+theorem c09_j2k_turns (st : St) (bs : Bytes) : turns step step_lt st bs ≤ bs.length + 1 := turns_le _ _ st bs
+
+/-- (6') the backwards step is real: length field 0 consumes nothing behind the marker -/
+theorem c09_skip_backwards : skipSegment [0, 0, 9, 9] = some 0 := by decide
+
+/-- (7) MEMORY: the allocations of the whole header walk (main header and all tile-part headers)
+    add up to at most 2·len(input) + 196605 bytes -/
+theorem c09_j2k_alloc_sum (bs : Bytes) (hb : IsBytes bs) : (parse bs).1.allocs.sum ≤ 2 * bs.length + 196605 :=
+  parse_alloc_sum bs hb
+
+example : IsBytes [0xff, 0x4f, 0xff, 0x51] := by unfold IsBytes; decide
 
 end J2kH
 
 namespace Rle
 
-/-- Full statement for RLE memory: FALSE on the unchanged code (see the counterexample). -/
-def rle_alloc_bound_FullStatement : Prop :=
-  ∀ (i : Info) (data : List Byte), ∀ a ∈ (decodeFrameC i data).2, a ≤ 64 * i.samples + 1
+/-- (8) decodeFrame allocates exactly one buffer, the frame, and only for accepted descriptions -/
+theorem rle_alloc_is_frame (i : Info) (data : List Byte) :
+    ∀ a ∈ (decodeFrameC i data).2, a = i.frameSize ∧ ¬ i.Rejected := decodeFrameC_allocs i data
 
-/-- (5) decodeFrame allocates exactly one buffer, of `frameSize` = ⌈bytesAllocated·S⌉₂ bytes
-    (S = Width·Height·SamplesPerPixel as declared by the FrameInfo) … -/
-theorem rle_alloc_is_frame (i : Info) (data : List Byte) : ∀ a ∈ (decodeFrameC i data).2, a = i.frameSize :=
-  decodeFrameC_allocs i data
-
-/-- (6) … which is at most 8192·S + 1 for EVERY description (uint16 wrap of BitsAllocated = 0) … -/
-theorem rle_alloc_bound_any (i : Info) (data : List Byte) :
-    ∀ a ∈ (decodeFrameC i data).2, a ≤ 8192 * i.samples + 1 := by
+/-- (9) FULL: every allocation of `Codec.decodeFrame` is at most 15·S + 1 bytes, S = Width·Height·
+    SamplesPerPixel as declared by the FrameInfo — for EVERY FrameInfo and byte string (commit
+    9650374; before it BitsAllocated = 0 made it 8192·S) -/
+theorem rle_alloc_bound (i : Info) (data : List Byte) : ∀ a ∈ (decodeFrameC i data).2, a ≤ 15 * i.samples + 1 := by
   intro a ha
-  rw [decodeFrameC_allocs i data a ha]
-  have h1 := frameSize_le i
-  have h2 := Nat.mul_le_mul_right i.samples (bytesAllocated_le i)
-  omega
+  obtain ⟨h1, h2⟩ := decodeFrameC_allocs i data a ha
+  rw [h1]
+  exact frameSize_le_samples i h2
 
-/-- (7) partial: within the property's budget (64 bytes per declared sample) when
-    1 ≤ BitsAllocated ≤ 512.  Missing: BitsAllocated = 0 or > 512 (never validated). -/
-theorem rle_alloc_bound_partial (i : Info) (data : List Byte) (h1 : 1 ≤ i.bitsAllocated) (h2 : i.bitsAllocated ≤ 512) :
-    ∀ a ∈ (decodeFrameC i data).2, a ≤ 64 * i.samples + 1 := by
-  intro a ha
-  rw [decodeFrameC_allocs i data a ha]
-  have h3 := frameSize_le i
-  have h4 := Nat.mul_le_mul_right i.samples (bytesAllocated_le_64 i h1 h2)
-  omega
-
-/-- (8) the unchanged code exceeds the budget 512 MiB + 64·S with S = 2^22: BitsAllocated = 0 makes
-    the 2048×2048 frame buffer 32 GiB -/
-theorem rle_alloc_counterexample :
-    let i : Info := { width := 2048, height := 2048, bitsAllocated := 0, spp := 1, planar := 0 }
-    i.samples ≤ 2 ^ 22 ∧ (decodeFrameC i [1]).2 = [2 ^ 35] ∧ 2 ^ 35 > 512 * 2 ^ 20 + 64 * i.samples := by
+/-- regression anchor: the former witness (2048×2048, BitsAllocated 0: 32 GiB) allocates nothing now -/
+example : (decodeFrameC { width := 2048, height := 2048, bitsAllocated := 0, spp := 1, planar := 0 } [1]).2 = [] := by
   decide
 
-example : let i : Info := { width := 3, height := 2, bitsAllocated := 16, spp := 3, planar := 0 }
-    1 ≤ i.bitsAllocated ∧ i.bitsAllocated ≤ 512 := by decide
+/-- non-vacuity: an accepted description does allocate its frame -/
+example : (decodeFrameC { width := 3, height := 2, bitsAllocated := 16, spp := 1, planar := 0 } [1]).2 = [12] := by
+  decide
 
 end Rle
